@@ -2609,7 +2609,8 @@ bool BW_MidiSequencer::parseRSXX(FileAndMemReader &fr)
 
         size_t pos = fr.tell();
         fr.seek(0, FileAndMemReader::END);
-        trackLength = fr.tell() - pos;
+        const size_t endPos = fr.tell();
+        trackLength = (endPos > pos) ? (endPos - pos) : 0; // A file can be positioned behind its end
         fr.seek(static_cast<long>(pos), FileAndMemReader::SET);
 
         // Read track data
@@ -2729,7 +2730,8 @@ bool BW_MidiSequencer::parseCMF(FileAndMemReader &fr)
         size_t trackLength;
         size_t pos = fr.tell();
         fr.seek(0, FileAndMemReader::END);
-        trackLength = fr.tell() - pos;
+        const size_t endPos = fr.tell();
+        trackLength = (endPos > pos) ? (endPos - pos) : 0; // A file can be positioned behind its end
         fr.seek(static_cast<long>(pos), FileAndMemReader::SET);
 
         // Read track data
@@ -2798,7 +2800,8 @@ bool BW_MidiSequencer::parseGMF(FileAndMemReader &fr)
         size_t trackLength;
         size_t pos = fr.tell();
         fr.seek(0, FileAndMemReader::END);
-        trackLength = fr.tell() - pos;
+        const size_t endPos = fr.tell();
+        trackLength = (endPos > pos) ? (endPos - pos) : 0; // A file can be positioned behind its end
         fr.seek(static_cast<long>(pos), FileAndMemReader::SET);
 
         // Read track data
